@@ -82,6 +82,7 @@ theorem steps_error (c : Cfg) (kind : ItemKind) (pre post : List RawAttr) (a : R
       | dw b => exact absurd rfl (hpre _ (by simp) b)
       | dwQualified _ _ => rfl
       | repr _ => rfl
+      | bare _ => rfl
       | other => rfl
     obtain ⟨e, he⟩ := ih (fun y hy => hpre y (by simp [hy])) acc
     exact ⟨e, by simp [ItemAttr.steps, hx, he, bind, Except.bind]⟩
